@@ -2,6 +2,7 @@ import Proofs.GAELeak
 import Proofs.GAEFlat
 import Proofs.GAEMatrix
 import Proofs.GAEGenEq
+import Proofs.FlattenGenEq
 
 /-!
 # C17 — advantage estimation follows its definition and respects episode boundaries; every
@@ -195,8 +196,8 @@ the generated range EQUAL to `loopBody`, `gaeLoop`, `returnsOf`.  The theorems b
 advantage / return theorems directly over the generated definitions (`genPPO γ λ c` =
 `GAEGen.PPO.gae λ γ c.r (flags c.d) c.v (ind c.nd) c.nv`, likewise `genIPPO`; `.1` = advantages,
 `.2` = returns), so a change of the source that alters its meaning breaks them.  The flattening into
-training rows is torch reshaping, outside the translated subset: it stays with the theorems above and
-the provenance-coded correspondence run. -/
+training rows (torch reshaping) is translated separately, by symbolic execution of the shape operations:
+see `C17_source_translation_flatten_*` at the end of this file. -/
 section source_translation
 open GAEGen
 
@@ -292,5 +293,237 @@ example : ippoAdvFlatten0 2 2 2 (fun a t e => (a, t, e)) ≠ ippoObsFlatten 2 2 
 example : genPPO (1/2) (3/4) exCol = ([11/8, 1, 7/2], [15/8, 2, 5]) ∧ genIPPO (1/2) (3/4) exCol = genPPO (1/2) (3/4) exCol := by decide +kernel
 example : exCol.v.length = exCol.T ∧ exCol'.v.length = exCol'.T := by decide
 example : (genIPPO (1/2) (3/4) exCol').1.take 2 = [11/8, 1] ∧ (genIPPO (1/2) (3/4) exCol').2.take 2 = [15/8, 2] := by decide +kernel
+
+/-! ## minibatches (model) -/
+
+/-- **any minibatch keeps the rows together (PPO)**: `get_experiences_samples` indexes the six flattened
+    tensors with the same index vector; for EVERY index vector `idx` (shuffled, with repeats, any length)
+    entry `j` of each of the six minibatch tensors is the entry of one and the same sample
+    `(t, e) = ppoUnflat T idx[j]` — alignment survives any shuffle -/
+theorem C17_minibatch_rows_aligned {σ α} (T E : Nat) (states : Nat → Nat → σ) (actions : Nat → Nat → α)
+    (logp advs rets vals : Nat → Nat → Rat) (idx : List Nat) (j : Nat) (hj : j < idx.length)
+    (hr : idx[j] < T * E) :
+    let t := (ppoUnflat T idx[j]).1
+    let e := (ppoUnflat T idx[j]).2
+    t < T ∧ e < E ∧ ppoFlat T t e = idx[j] ∧
+    (gather idx (ppoFlatten T E states))[j]? = some (some (states t e)) ∧
+    (gather idx (ppoFlatten T E actions))[j]? = some (some (actions t e)) ∧
+    (gather idx (ppoFlatten T E logp))[j]? = some (some (logp t e)) ∧
+    (gather idx (ppoFlatten T E advs))[j]? = some (some (advs t e)) ∧
+    (gather idx (ppoFlatten T E rets))[j]? = some (some (rets t e)) ∧
+    (gather idx (ppoFlatten T E vals))[j]? = some (some (vals t e)) := by
+  intro t e
+  obtain ⟨h1, h2⟩ := ppoUnflat_bounds T E idx[j] hr
+  refine ⟨h1, h2, ppoFlat_unflat T idx[j], ?_, ?_, ?_, ?_, ?_, ?_⟩ <;>
+    rw [gather_get idx _ j hj, ppoFlatten_row T E _ idx[j] hr]
+
+/-- **any minibatch keeps the rows together (IPPO)**: the same for the agent-major rows of the six IPPO tensors -/
+theorem C17_ippo_minibatch_rows_aligned {σ α} (A T E : Nat) (hA : 0 < A)
+    (states : Nat → Nat → Nat → σ) (actions : Nat → Nat → Nat → α)
+    (logp advs rets vals : Nat → Nat → Nat → Rat) (idx : List Nat) (j : Nat) (hj : j < idx.length)
+    (hr : idx[j] < A * (T * E)) :
+    let a := (ippoUnflat T E idx[j]).1
+    let t := (ippoUnflat T E idx[j]).2.1
+    let e := (ippoUnflat T E idx[j]).2.2
+    a < A ∧ t < T ∧ e < E ∧ ippoObsFlat T E a t e = idx[j] ∧
+    (gather idx (ippoObsFlatten A T E states))[j]? = some (some (states a t e)) ∧
+    (gather idx (ippoObsFlatten A T E actions))[j]? = some (some (actions a t e)) ∧
+    (gather idx (ippoAdvFlatten A T E logp))[j]? = some (some (logp a t e)) ∧
+    (gather idx (ippoAdvFlatten A T E advs))[j]? = some (some (advs a t e)) ∧
+    (gather idx (ippoAdvFlatten A T E rets))[j]? = some (some (rets a t e)) ∧
+    (gather idx (ippoAdvFlatten A T E vals))[j]? = some (some (vals a t e)) := by
+  intro a t e
+  obtain ⟨h1, h2, h3⟩ := ippoUnflat_bounds A T E idx[j] hr
+  simp only [ippoAdvFlatten_eq A T E hA]
+  refine ⟨h1, h2, h3, ippoFlat_unflat T E idx[j], ?_, ?_, ?_, ?_, ?_, ?_⟩ <;>
+    rw [gather_get idx _ j hj, ippoObsFlatten_row A T E _ idx[j] hr]
+
+/-- a minibatch has one entry per index, and an epoch's shuffled index vector (a permutation of `0 … n-1`)
+    uses every training row exactly once -/
+theorem C17_shuffle_uses_every_row_once {α} (idx : List Nat) (xs : List α) (n : Nat)
+    (hp : idx.Perm (List.range n)) :
+    (gather idx xs).length = idx.length ∧ idx.length = n ∧ ∀ row, row < n → idx.count row = 1 := by
+  refine ⟨gather_length idx xs, by rw [hp.length_eq, List.length_range], fun row hr => ?_⟩
+  rw [hp.count_eq row]
+  exact range_count n row hr
+
+/-! ## the re-layout code, translated -/
+section source_translation_flatten
+open FlattenGen
+
+/-- every index map generated from the source equals the model's un-flatten map: the six tensors of a vectorised
+    PPO rollout with Box / Dict / Tuple observations and Box / Discrete actions (`ppoUnflat`), of an IPPO rollout
+    of `A` agents sharing a policy with Box / Dict observations and Box / Discrete actions (`ippoUnflat`), for all
+    sizes; the feature index is never touched -/
+theorem C17_source_translation_flatten_equalities (T E A F0 F1 row f : Nat) :
+    (PPO.Vec.src0 T E F0 F1 row f = ((ppoUnflat T row).1, (ppoUnflat T row).2, f) ∧
+     PPO.Vec.src1 T E F0 F1 row f = ((ppoUnflat T row).1, (ppoUnflat T row).2, f) ∧
+     PPO.Vec.src2 T E F0 F1 row = ppoUnflat T row ∧ PPO.Vec.src3 T E F0 F1 row = ppoUnflat T row ∧
+     PPO.Vec.src4 T E F0 F1 row = ppoUnflat T row ∧ PPO.Vec.src5 T E F0 F1 row = ppoUnflat T row) ∧
+    (PPO.VecDict.src0_k0 T E F0 row f = ((ppoUnflat T row).1, (ppoUnflat T row).2, f) ∧
+     PPO.VecDict.src0_k1 T E F0 row = ppoUnflat T row ∧ PPO.VecDict.src1 T E F0 row = ppoUnflat T row ∧
+     PPO.VecDict.src2 T E F0 row = ppoUnflat T row ∧ PPO.VecDict.src3 T E F0 row = ppoUnflat T row ∧
+     PPO.VecDict.src4 T E F0 row = ppoUnflat T row ∧ PPO.VecDict.src5 T E F0 row = ppoUnflat T row) ∧
+    (PPO.VecTuple.src0_0 T E F0 F1 row f = ((ppoUnflat T row).1, (ppoUnflat T row).2, f) ∧
+     PPO.VecTuple.src0_1 T E F0 F1 row = ppoUnflat T row ∧
+     PPO.VecTuple.src1 T E F0 F1 row f = ((ppoUnflat T row).1, (ppoUnflat T row).2, f) ∧
+     PPO.VecTuple.src2 T E F0 F1 row = ppoUnflat T row ∧ PPO.VecTuple.src3 T E F0 F1 row = ppoUnflat T row ∧
+     PPO.VecTuple.src4 T E F0 F1 row = ppoUnflat T row ∧ PPO.VecTuple.src5 T E F0 F1 row = ppoUnflat T row) ∧
+    (IPPO.Vec.src0 T E A F0 F1 row f = ((ippoUnflat T E row).1, (ippoUnflat T E row).2.1, (ippoUnflat T E row).2.2, f) ∧
+     IPPO.Vec.src1 T E A F0 F1 row f = ((ippoUnflat T E row).1, (ippoUnflat T E row).2.1, (ippoUnflat T E row).2.2, f) ∧
+     IPPO.Vec.src2 T E A F0 F1 row = ippoUnflat T E row ∧ IPPO.Vec.src3 T E A F0 F1 row = ippoUnflat T E row ∧
+     IPPO.Vec.src4 T E A F0 F1 row = ippoUnflat T E row ∧ IPPO.Vec.src5 T E A F0 F1 row = ippoUnflat T E row) ∧
+    (IPPO.VecDisc.src0_k0 T E A F0 row f = ((ippoUnflat T E row).1, (ippoUnflat T E row).2.1, (ippoUnflat T E row).2.2, f) ∧
+     IPPO.VecDisc.src0_k1 T E A F0 row = ippoUnflat T E row ∧ IPPO.VecDisc.src1 T E A F0 row = ippoUnflat T E row ∧
+     IPPO.VecDisc.src2 T E A F0 row = ippoUnflat T E row ∧ IPPO.VecDisc.src3 T E A F0 row = ippoUnflat T E row ∧
+     IPPO.VecDisc.src4 T E A F0 row = ippoUnflat T E row ∧ IPPO.VecDisc.src5 T E A F0 row = ippoUnflat T E row) :=
+  ⟨gen_ppo_vec_src_eq T E F0 F1 row f, gen_ppo_vecdict_src_eq T E F0 row f, gen_ppo_vectuple_src_eq T E F0 F1 row f,
+    gen_ippo_vec_src_eq T E A F0 F1 row f, gen_ippo_vecdisc_src_eq T E A F0 row f⟩
+
+/-- **PPO rows over the generated maps**: at the row `ppoFlat T t e = e*T + t` every one of the six tensors that the
+    translated `stack_experiences` → `flatten_experiences` chain of `PPO.learn` hands to the minibatch loop holds
+    the entry of step `t`, environment `e` (feature `f` in place `f`) — for Box, Dict and Tuple observations and
+    Box and Discrete actions, every rollout length and number of environments -/
+theorem C17_source_translation_flatten_ppo_rows_aligned (T E F0 F1 t e f : Nat) (ht : t < T) :
+    (PPO.Vec.src0 T E F0 F1 (ppoFlat T t e) f = (t, e, f) ∧ PPO.Vec.src1 T E F0 F1 (ppoFlat T t e) f = (t, e, f) ∧
+     PPO.Vec.src2 T E F0 F1 (ppoFlat T t e) = (t, e) ∧ PPO.Vec.src3 T E F0 F1 (ppoFlat T t e) = (t, e) ∧
+     PPO.Vec.src4 T E F0 F1 (ppoFlat T t e) = (t, e) ∧ PPO.Vec.src5 T E F0 F1 (ppoFlat T t e) = (t, e)) ∧
+    (PPO.VecDict.src0_k0 T E F0 (ppoFlat T t e) f = (t, e, f) ∧ PPO.VecDict.src0_k1 T E F0 (ppoFlat T t e) = (t, e) ∧
+     PPO.VecDict.src1 T E F0 (ppoFlat T t e) = (t, e) ∧ PPO.VecDict.src2 T E F0 (ppoFlat T t e) = (t, e) ∧
+     PPO.VecDict.src3 T E F0 (ppoFlat T t e) = (t, e) ∧ PPO.VecDict.src4 T E F0 (ppoFlat T t e) = (t, e) ∧
+     PPO.VecDict.src5 T E F0 (ppoFlat T t e) = (t, e)) ∧
+    (PPO.VecTuple.src0_0 T E F0 F1 (ppoFlat T t e) f = (t, e, f) ∧ PPO.VecTuple.src0_1 T E F0 F1 (ppoFlat T t e) = (t, e) ∧
+     PPO.VecTuple.src1 T E F0 F1 (ppoFlat T t e) f = (t, e, f) ∧ PPO.VecTuple.src2 T E F0 F1 (ppoFlat T t e) = (t, e) ∧
+     PPO.VecTuple.src3 T E F0 F1 (ppoFlat T t e) = (t, e) ∧ PPO.VecTuple.src4 T E F0 F1 (ppoFlat T t e) = (t, e) ∧
+     PPO.VecTuple.src5 T E F0 F1 (ppoFlat T t e) = (t, e)) := by
+  obtain ⟨a0, a1, a2, a3, a4, a5⟩ := gen_ppo_vec_src_eq T E F0 F1 (ppoFlat T t e) f
+  obtain ⟨b0, b1, b2, b3, b4, b5, b6⟩ := gen_ppo_vecdict_src_eq T E F0 (ppoFlat T t e) f
+  obtain ⟨c0, c1, c2, c3, c4, c5, c6⟩ := gen_ppo_vectuple_src_eq T E F0 F1 (ppoFlat T t e) f
+  have u := ppoUnflat_flat T t e ht
+  rw [a0, a1, a2, a3, a4, a5, b0, b1, b2, b3, b4, b5, b6, c0, c1, c2, c3, c4, c5, c6, u]
+  simp
+
+/-- the generated PPO row map is a bijection between the rows `0 … rows-1` of the flattened tensors and the
+    samples `{(t, e) | t < T, e < E}`, with `rows = T*E` read off the translated `reshape`: no sample is lost or
+    used twice; and the model's flattened list holds in row `row` the entry of the sample the generated map names -/
+theorem C17_source_translation_flatten_ppo_bijective {β} (T E F0 F1 : Nat) (m : Nat → Nat → β) :
+    PPO.Vec.rows2 T E F0 F1 = T * E ∧ PPO.Vec.rows0 T E F0 F1 = T * E ∧
+    (∀ row, row < PPO.Vec.rows2 T E F0 F1 →
+      (PPO.Vec.src2 T E F0 F1 row).1 < T ∧ (PPO.Vec.src2 T E F0 F1 row).2 < E ∧
+      ppoFlat T (PPO.Vec.src2 T E F0 F1 row).1 (PPO.Vec.src2 T E F0 F1 row).2 = row ∧
+      (ppoFlatten T E m)[row]? = some (m (PPO.Vec.src2 T E F0 F1 row).1 (PPO.Vec.src2 T E F0 F1 row).2)) ∧
+    (∀ t e, t < T → e < E → ppoFlat T t e < PPO.Vec.rows2 T E F0 F1 ∧ PPO.Vec.src2 T E F0 F1 (ppoFlat T t e) = (t, e)) := by
+  obtain ⟨r0, _, r2, _⟩ := gen_ppo_vec_rows_eq T E F0 F1
+  refine ⟨r2, r0, fun row hr => ?_, fun t e ht he => ?_⟩
+  · rw [r2] at hr
+    rw [(gen_ppo_vec_src_eq T E F0 F1 row 0).2.2.1]
+    obtain ⟨h1, h2⟩ := ppoUnflat_bounds T E row hr
+    exact ⟨h1, h2, ppoFlat_unflat T row, ppoFlatten_row T E m row hr⟩
+  · rw [r2, (gen_ppo_vec_src_eq T E F0 F1 _ 0).2.2.1]
+    exact ⟨(C17_ppo_flat_bijective T E).1 t e ht he, ppoUnflat_flat T t e ht⟩
+
+/-- **a rollout without environment dimension** (`is_vectorized_experiences` is false, `flatten_experiences` is
+    skipped): the six generated maps are the identity on the step, environment 0 -/
+theorem C17_source_translation_flatten_ppo_no_env_dimension (T F0 row f : Nat) (h : row < T) :
+    PPO.Flat.rows2 T F0 = T ∧ PPO.Flat.src0 T F0 row f = (row, 0, f) ∧ PPO.Flat.src1 T F0 row = (row, 0) ∧
+    PPO.Flat.src2 T F0 row = (row, 0) ∧ PPO.Flat.src3 T F0 row = (row, 0) ∧ PPO.Flat.src4 T F0 row = (row, 0) ∧
+    PPO.Flat.src5 T F0 row = (row, 0) ∧ ppoFlat T row 0 = row := by
+  obtain ⟨a0, a1, a2, a3, a4, a5⟩ := gen_ppo_flat_src_eq T F0 row f h
+  have u : ppoUnflat T row = (row, 0) := by simp [ppoUnflat, Nat.mod_eq_of_lt h, Nat.div_eq_of_lt h]
+  rw [a0, a1, a2, a3, a4, a5, u]
+  simp [(gen_ppo_flat_rows_eq T F0).2.2.1, ppoFlat]
+
+/-- **IPPO rows over the generated maps**: at the row `ippoObsFlat T E a t e = a*(T*E) + t*E + e` every one of the
+    six tensors that the translated `assemble_shared_inputs` / `_learn_individual` hand to the minibatch loop —
+    states and actions through `concatenate_experiences_into_batches`, log-probs / advantages / returns / values
+    through `vectorize_experiences_by_agent` and `reshape(T, A, -1).transpose(0, 1).reshape(-1)` — holds the entry of
+    agent `a`, step `t`, environment `e`, for every number of agents sharing the policy, steps and environments -/
+theorem C17_source_translation_flatten_ippo_rows_aligned (T E A F0 F1 a t e f : Nat) (ht : t < T) (he : e < E) :
+    (IPPO.Vec.src0 T E A F0 F1 (ippoObsFlat T E a t e) f = (a, t, e, f) ∧
+     IPPO.Vec.src1 T E A F0 F1 (ippoObsFlat T E a t e) f = (a, t, e, f) ∧
+     IPPO.Vec.src2 T E A F0 F1 (ippoObsFlat T E a t e) = (a, t, e) ∧
+     IPPO.Vec.src3 T E A F0 F1 (ippoObsFlat T E a t e) = (a, t, e) ∧
+     IPPO.Vec.src4 T E A F0 F1 (ippoObsFlat T E a t e) = (a, t, e) ∧
+     IPPO.Vec.src5 T E A F0 F1 (ippoObsFlat T E a t e) = (a, t, e)) ∧
+    (IPPO.VecDisc.src0_k0 T E A F0 (ippoObsFlat T E a t e) f = (a, t, e, f) ∧
+     IPPO.VecDisc.src0_k1 T E A F0 (ippoObsFlat T E a t e) = (a, t, e) ∧
+     IPPO.VecDisc.src1 T E A F0 (ippoObsFlat T E a t e) = (a, t, e) ∧
+     IPPO.VecDisc.src2 T E A F0 (ippoObsFlat T E a t e) = (a, t, e) ∧
+     IPPO.VecDisc.src3 T E A F0 (ippoObsFlat T E a t e) = (a, t, e) ∧
+     IPPO.VecDisc.src4 T E A F0 (ippoObsFlat T E a t e) = (a, t, e) ∧
+     IPPO.VecDisc.src5 T E A F0 (ippoObsFlat T E a t e) = (a, t, e)) := by
+  obtain ⟨a0, a1, a2, a3, a4, a5⟩ := gen_ippo_vec_src_eq T E A F0 F1 (ippoObsFlat T E a t e) f
+  obtain ⟨b0, b1, b2, b3, b4, b5, b6⟩ := gen_ippo_vecdisc_src_eq T E A F0 (ippoObsFlat T E a t e) f
+  have u := ippoUnflat_flat T E a t e ht he
+  rw [a0, a1, a2, a3, a4, a5, b0, b1, b2, b3, b4, b5, b6, u]
+  simp
+
+/-- the generated IPPO row map is a bijection between the rows `0 … A*T*E-1` and the samples `(a, t, e)`; the
+    model's flattened lists hold in row `row` the entry of the sample the generated map names -/
+theorem C17_source_translation_flatten_ippo_bijective {β} (T E A F0 F1 : Nat) (hA : 0 < A) (m : Nat → Nat → Nat → β) :
+    IPPO.Vec.rows0 T E A F0 F1 = A * (T * E) ∧ IPPO.Vec.rows3 T E A F0 F1 = A * (T * E) ∧
+    (∀ row, row < IPPO.Vec.rows3 T E A F0 F1 →
+      (IPPO.Vec.src3 T E A F0 F1 row).1 < A ∧ (IPPO.Vec.src3 T E A F0 F1 row).2.1 < T ∧
+      (IPPO.Vec.src3 T E A F0 F1 row).2.2 < E ∧
+      ippoObsFlat T E (IPPO.Vec.src3 T E A F0 F1 row).1 (IPPO.Vec.src3 T E A F0 F1 row).2.1
+        (IPPO.Vec.src3 T E A F0 F1 row).2.2 = row ∧
+      (ippoAdvFlatten A T E m)[row]? = some (m (IPPO.Vec.src3 T E A F0 F1 row).1
+        (IPPO.Vec.src3 T E A F0 F1 row).2.1 (IPPO.Vec.src3 T E A F0 F1 row).2.2)) ∧
+    (∀ a t e, a < A → t < T → e < E → ippoObsFlat T E a t e < IPPO.Vec.rows3 T E A F0 F1 ∧
+      IPPO.Vec.src3 T E A F0 F1 (ippoObsFlat T E a t e) = (a, t, e)) := by
+  obtain ⟨r0, _, _, r3, _⟩ := gen_ippo_vec_rows_eq T E A F0 F1
+  refine ⟨r0, r3, fun row hr => ?_, fun a t e ha ht he => ?_⟩
+  · rw [r3] at hr
+    rw [(gen_ippo_vec_src_eq T E A F0 F1 row 0).2.2.2.1, ippoAdvFlatten_eq A T E hA]
+    obtain ⟨h1, h2, h3⟩ := ippoUnflat_bounds A T E row hr
+    exact ⟨h1, h2, h3, ippoFlat_unflat T E row, ippoObsFlatten_row A T E m row hr⟩
+  · rw [r3, (gen_ippo_vec_src_eq T E A F0 F1 _ 0).2.2.2.1]
+    exact ⟨(C17_ippo_flat_bijective A T E).1 a t e ha ht he, ippoUnflat_flat T E a t e ht he⟩
+
+/-- **IPPO columns over the generated maps**: in the `(T, A*E)` matrices of rewards, dones and values and in the
+    `(1, A*E)` row of `next_done` that the translated code builds before the advantage loop, column `a*E + e` is
+    agent `a`, environment `e` (the same column in all four), and there are `A*E` columns -/
+theorem C17_source_translation_flatten_ippo_columns (T E A F0 F1 a t e : Nat) (he : e < E) :
+    IPPO.Vec.mat_x3 T E A F0 F1 t (a * E + e) = (a, t, e) ∧ IPPO.Vec.mat_x4 T E A F0 F1 t (a * E + e) = (a, t, e) ∧
+    IPPO.Vec.mat_x5 T E A F0 F1 t (a * E + e) = (a, t, e) ∧ IPPO.Vec.row_x7 T E A F0 F1 (a * E + e) = (a, T, e) ∧
+    IPPO.Vec.mat_x3_cols T E A F0 F1 = A * E ∧ IPPO.Vec.mat_x4_cols T E A F0 F1 = A * E ∧
+    IPPO.Vec.mat_x5_cols T E A F0 F1 = A * E ∧ IPPO.Vec.row_x7_cols T E A F0 F1 = A * E := by
+  obtain ⟨h3, h4, h5, h7, c3, c4, c5, c7⟩ := gen_ippo_vec_mat_eq T E A F0 F1 t (a * E + e)
+  rw [h3, h4, h5, h7, flat2_div E a e he, flat2_mod E a e he]
+  exact ⟨rfl, rfl, rfl, rfl, c3, c4, c5, c7⟩
+
+/-- **minibatches over the generated maps**: after the translated `get_experiences_samples`, row `j` of each of the
+    six minibatch tensors is the entry of ONE sample — `ppoUnflat T (idx (start + j))` for PPO,
+    `ippoUnflat T E (idx (start + j))` for IPPO — for EVERY index function `idx` (`np.random.shuffle` is arbitrary
+    here) and every minibatch start: shuffling cannot separate a sample's six entries -/
+theorem C17_source_translation_flatten_minibatch (idx : Nat → Nat) (start T E A F0 F1 j f : Nat) :
+    (PPO.Vec.batch0 idx start T E F0 F1 j f = ((ppoUnflat T (idx (start + j))).1, (ppoUnflat T (idx (start + j))).2, f) ∧
+     PPO.Vec.batch1 idx start T E F0 F1 j f = ((ppoUnflat T (idx (start + j))).1, (ppoUnflat T (idx (start + j))).2, f) ∧
+     PPO.Vec.batch2 idx start T E F0 F1 j = ppoUnflat T (idx (start + j)) ∧
+     PPO.Vec.batch3 idx start T E F0 F1 j = ppoUnflat T (idx (start + j)) ∧
+     PPO.Vec.batch4 idx start T E F0 F1 j = ppoUnflat T (idx (start + j)) ∧
+     PPO.Vec.batch5 idx start T E F0 F1 j = ppoUnflat T (idx (start + j))) ∧
+    (IPPO.Vec.batch0 idx start T E A F0 F1 j f = ((ippoUnflat T E (idx (start + j))).1,
+        (ippoUnflat T E (idx (start + j))).2.1, (ippoUnflat T E (idx (start + j))).2.2, f) ∧
+     IPPO.Vec.batch1 idx start T E A F0 F1 j f = ((ippoUnflat T E (idx (start + j))).1,
+        (ippoUnflat T E (idx (start + j))).2.1, (ippoUnflat T E (idx (start + j))).2.2, f) ∧
+     IPPO.Vec.batch2 idx start T E A F0 F1 j = ippoUnflat T E (idx (start + j)) ∧
+     IPPO.Vec.batch3 idx start T E A F0 F1 j = ippoUnflat T E (idx (start + j)) ∧
+     IPPO.Vec.batch4 idx start T E A F0 F1 j = ippoUnflat T E (idx (start + j)) ∧
+     IPPO.Vec.batch5 idx start T E A F0 F1 j = ippoUnflat T E (idx (start + j))) := by
+  obtain ⟨a0, a1, a2, a3, a4, a5⟩ := gen_ppo_vec_batch_eq idx start T E F0 F1 j f
+  obtain ⟨b0, b1, b2, b3, b4, b5⟩ := gen_ippo_vec_batch_eq idx start T E A F0 F1 j f
+  rw [a0, a1, a2, a3, a4, a5, b0, b1, b2, b3, b4, b5]
+  exact ⟨gen_ppo_vec_src_eq T E F0 F1 _ f, gen_ippo_vec_src_eq T E A F0 F1 _ f⟩
+
+end source_translation_flatten
+
+-- non-vacuity of the new statements on concrete sizes: the generated maps on a 2-step × 3-env PPO rollout and a
+-- 2-agent × 2-step × 2-env IPPO rollout, a shuffled index vector with a repeat, a permutation
+example : (List.range 6).map (FlattenGen.PPO.Vec.src2 2 3 4 5) = [(0,0), (1,0), (0,1), (1,1), (0,2), (1,2)] := by decide
+example : (List.range 8).map (FlattenGen.IPPO.Vec.src0 2 2 2 4 5 · 3) = (List.range 8).map (fun r => ((FlattenGen.IPPO.Vec.src3 2 2 2 4 5 r).1, (FlattenGen.IPPO.Vec.src3 2 2 2 4 5 r).2.1, (FlattenGen.IPPO.Vec.src3 2 2 2 4 5 r).2.2, 3)) := by decide
+example : gather [5, 0, 5, 2] (ppoFlatten 2 3 (fun t e => (t, e))) = [some (1,2), some (0,0), some (1,2), some (0,1)] := by decide
+example : gather [7] (ppoFlatten 2 3 (fun t e => (t, e))) = [none] := by decide
+example : [2, 0, 3, 1].Perm (List.range 4) := by decide
 
 end GAE
